@@ -379,6 +379,40 @@ func runTransition(spec *SeqSpec, init int, path []int, op Op, ops []Op) (out st
 				return
 			}
 		}
+		// per-connection session records (private-state probe, when it compiles)
+		if redisemu.VDeepSessionState != nil {
+			for si, cl := range x.impl.clients {
+				if cl == nil || si >= len(model.Sess) {
+					continue
+				}
+				if w, g := model.SessionState(si), redisemu.VDeepSessionState(cl); w != g {
+					out = stepOutcome{Status: "mismatch", Sig: sigBase + "|session|c" + strconv.Itoa(si), Detail: fmt.Sprintf("after %s: session record of connection %d: want {%s} got {%s}", op, si, w, g)}
+					finished = true
+					return
+				}
+			}
+		}
+		// what each connection believes about itself, asked before any observation command changes it:
+		// CLIENT INFO reports the selected database of the connection it is sent on
+		if spec.ObserveAll {
+			for si, cl := range x.impl.clients {
+				if cl == nil || si >= len(model.Sess) || model.Sess[si].Multi || model.Sess[si].Blocked {
+					continue
+				}
+				r, err := vm.Parse1(cl.Do("CLIENT", "INFO"))
+				if err != nil {
+					continue
+				}
+				if i := strings.Index(r.S, " db="); i >= 0 {
+					f := strings.Fields(r.S[i+1:])[0]
+					if want := "db=" + strconv.Itoa(model.Sess[si].DB); f != want {
+						out = stepOutcome{Status: "mismatch", Sig: sigBase + "|client-info-db|c" + strconv.Itoa(si), Detail: fmt.Sprintf("after %s: CLIENT INFO on connection %d reports %s, the connection is in database %d", op, si, f, model.Sess[si].DB)}
+						finished = true
+						return
+					}
+				}
+			}
+		}
 		// full observable state
 		stage = "observe"
 		probes := append(observation(spec, model, obs), spec.Probes...)
@@ -407,19 +441,6 @@ func runTransition(spec *SeqSpec, init int, path []int, op Op, ops []Op) (out st
 				out = stepOutcome{Status: "mismatch", Sig: sigBase + "|state|obs:" + ptpl + "|" + vm.Shape(w) + "->" + vm.Shape(g), Detail: fmt.Sprintf("after %s: %s: %s", op, p, why)}
 				finished = true
 				return
-			}
-		}
-		// per-connection session records (private-state probe, when it compiles)
-		if redisemu.VDeepSessionState != nil {
-			for si, cl := range x.impl.clients {
-				if cl == nil || si >= len(model.Sess) {
-					continue
-				}
-				if w, g := model.SessionState(si), redisemu.VDeepSessionState(cl); w != g {
-					out = stepOutcome{Status: "mismatch", Sig: sigBase + "|session|c" + strconv.Itoa(si), Detail: fmt.Sprintf("after %s: session record of connection %d: want {%s} got {%s}", op, si, w, g)}
-					finished = true
-					return
-				}
 			}
 		}
 		out.Status = "ok"
